@@ -119,6 +119,9 @@ def _tree(args: argparse.Namespace):
         with open(path, "rb") as f:
             analysis_toml = util._load_toml(f, "analysis")
 
+        # An analysis file may describe a code base without any platform.
+        analysis_toml.setdefault("platform", {})
+
         if "codebase" in analysis_toml:
             if "exclude" in analysis_toml["codebase"]:
                 args.excludes += analysis_toml["codebase"]["exclude"]
